@@ -177,7 +177,7 @@ func (c *FnCtx) findLoops() {
 	}
 	// sanity: every loop clause refers to an existing loop
 	for _, cl := range c.fc.Clauses {
-		if (cl.Kind == "invariant" || cl.Kind == "decreases") && (cl.Loop < 1 || cl.Loop > len(heads)) {
+		if (cl.Kind == "invariant" || cl.Kind == "decreases" || cl.Kind == "unfold") && (cl.Loop < 1 || cl.Loop > len(heads)) {
 			panic(specErr{fmt.Sprintf("loop %d does not exist (function has %d loops)", cl.Loop, len(heads))})
 		}
 	}
@@ -516,6 +516,9 @@ func (c *FnCtx) execBlock(b *ssa.BasicBlock) {
 		for _, cl := range c.loopClauses(li, "decreases") {
 			li.variant = append(li.variant, c.define("variant", sInt, env.evalInt(cl.E)))
 		}
+		for _, cl := range c.loopClauses(li, "unfold") {
+			env.eval(cl.E) // ground applications of recursive spec functions get their unfolding instance
+		}
 		li.headSt = st.clone()
 	}
 	for _, in := range b.Instrs {
@@ -548,6 +551,9 @@ func (c *FnCtx) flow(st *State, from, to *ssa.BasicBlock, cond string) {
 			v := env.evalInt(cl.E)
 			o := c.oblige(bst, "dec", fmt.Sprintf("L%d", li.ord), token.NoPos, and(le("0", li.variant[i]), lt(v, li.variant[i])),
 				fmt.Sprintf("loop %d variant decreases: %s", li.ord, cl.Text), cl.Tags)
+			if o == nil {
+				continue
+			}
 			if cl.Only != "" {
 				o.allow[cl.Only] = true
 				c.assumptions["termination of loop "+fmt.Sprint(li.ord)+" assumes "+cl.Only] = true
@@ -729,6 +735,10 @@ func (c *FnCtx) execAlloc(st *State, in *ssa.Alloc) {
 	p := VPtr{Root: rootObj, Ref: r, T: t}
 	c.vals[in] = p
 	c.zeroInit(st, p, t)
+	if types.TypeString(t, nil) == "strings.Builder" {
+		lm := c.heapGet(st, "G$sb.len", arrSort(sInt))
+		c.heapSet(st, "G$sb.len", arrSort(sInt), sto(lm, r, "0"))
+	}
 }
 
 // zeroInit writes zero values into a freshly allocated object.
